@@ -678,6 +678,8 @@ container : Container :: new ( lg_size ) , }
 & self . container }
 
 
+    #[verifier::loop_isolation(false)]
+    #[verifier::allow_complex_invariants]
     fn update ( & mut self , coupon : u32 ) requires old ( self ) . shape ( ) , old ( self ) . container . len < usize :: MAX ,
 /*@C02.set_has_room*/ old ( self ) . has_room ( ) , ensures final ( self ) . shape ( ) , final ( self ) . container . lg_size == old ( self ) . container . lg_size ,
 /*@C02.set_coupons*/ coupon != 0 ==> final ( self ) @ == old ( self ) @ . insert ( coupon ) , final ( self ) . container . len <= old ( self ) . container . len + 1 ,
